@@ -146,8 +146,34 @@ class Lib(object):
                 out += self.for_loop(ex, st, p1, fctx, it, key, spec)
             return out
         if spec is None:
-            raise Unsupported("no invariant for %s" % key)
+            return self.unroll_while(ex, st, p, fctx, key)
         return self.cut(ex, st, p, fctx, key, spec, cond=lambda q: ex.ev_cond(st.test, q, fctx), step=None, bind=None)
+
+    def unroll_while(self, ex, st, p, fctx, key, limit=8):
+        """a while loop without invariant: unrolled as long as its condition evaluates
+        to a constant (e.g. the one-block header loops)"""
+        paths = [(p, "normal", None)]
+        results = []
+        for _ in range(limit + 1):
+            nxt = []
+            for p1, kind, val in paths:
+                for p2, c in ex.ev_cond(st.test, p1, fctx):
+                    if len(p2.pc) != len(p1.pc):
+                        raise Unsupported("no invariant for %s (condition is not constant)" % key)
+                    if not c:
+                        results.append((p2, "normal", None))
+                        continue
+                    for p3, k3, v3 in ex.block(st.body, p2, fctx):
+                        if k3 in ("normal", "continue"):
+                            nxt.append((p3, "normal", None))
+                        elif k3 == "break":
+                            results.append((p3, "normal", None))
+                        else:
+                            results.append((p3, k3, v3))
+            paths = nxt
+            if not paths:
+                return results
+        raise Unsupported("no invariant for %s (more than %d iterations)" % (key, limit))
 
     def for_loop(self, ex, st, p, fctx, it, key, spec):
         ln = st.lineno
@@ -662,7 +688,7 @@ class Lib(object):
                 if vz.sort() != BYTES:
                     ex.oblige(p, "pack-field-type", False, ln, "safety")
                     raise DeadPath()
-                ex.oblige(p, "pack-pascal-string-fits(%d)" % w, z3.Length(vz) <= w, ln, "safety")
+                ex.oblige(p, "pack-pascal-string-fits(%d)" % w, blen(vz) <= w, ln, "safety")
                 out.append(vz)
             else:
                 vz = to_z3(v)
